@@ -23,7 +23,7 @@ GATING_FAULTS = ['stat:ENOENT', 'stat:EACCES', 'openr:ENOENT', 'openr:EACCES', '
 
 
 def variants(prop, tier):
-    return ['asan', 'plain']
+    return ['asan', 'plain', 'valgrind']
 
 
 # ---------------------------------------------------------------- inputs
@@ -183,6 +183,11 @@ BAD_ARGS = [['--frobnicate'], ['-n'], ['-n', '0'], ['-n', '-3'], ['-n', 'abc'], 
 
 def gen_spec(prop, rng, tier):
     wl = gen.gen_workload(rng, weights=[25, 45, 12, 4, 2, 6, 6])
+    vg = 1 if rng.random() < (0.02 if tier == 'quick' else 0.06) else 0
+    if vg and rng.random() < 0.5:
+        # memcheck sample: also reach the parallel Hirschberg region (>= 500 columns)
+        wl = gen.gen_workload(rng, profile='hirsch')
+        wl['seqs'] = [x[:rng.randint(520, 640)] for x in wl['seqs'][:3]]; wl['names'] = wl['names'][:len(wl['seqs'])]
     fmt_in = rng.choice(['fasta', 'fasta', 'msf', 'clu'])
     data = render(rng, wl, fmt_in)
     cls = rng.choices(['wellformed', 'mutated', 'options'], [4, 5, 2])[0]
@@ -199,7 +204,7 @@ def gen_spec(prop, rng, tier):
     nthreads = rng.choice([1, 2, 4, 8])
     spec = {'kind': 'C05', 'prop': 'C05', 'cls': cls, 'mode': mode, 'wl': wl, 'fmt_in': fmt_in, 'fmt_out': fmt_out, 'muts': muts,
             'data': data.decode('latin-1'), 'nthreads': nthreads, 'quiet': rng.choice([1, 1, 0]),
-            'world': gen.gen_world(rng), 'junk2': rng.getrandbits(62), 'extra_args': [], 'outpath': rng.choice(['out.afa', 'out.afa', None, 'res/out.afa'])}
+            'world': gen.gen_world(rng), 'junk2': rng.getrandbits(62), 'vg': vg, 'extra_args': [], 'outpath': rng.choice(['out.afa', 'out.afa', None, 'res/out.afa'])}
     if cls == 'options':
         spec['extra_args'] = rng.choice(BAD_ARGS)
         if rng.random() < 0.3:
@@ -316,6 +321,11 @@ def plans_of(spec):
     for k, f in enumerate(spec['faults']):
         p, ixf = build_plan(spec, f, 'f%d' % k)
         out.append(('f%d' % k, 'asan', p, ixf))
+    if spec.get('vg'):
+        p, ixv = build_plan(spec, None, 'vg')
+        p.world['junk_on'] = 0
+        p.world['wall_limit'] = 120
+        out.append(('vg', 'valgrind', p, ixv, True))
     return out
 
 
@@ -497,6 +507,8 @@ def judge(spec, results):
                     add('HANG', '%s %s' % (oc[2], desc), tag, site)
                 elif cc in ('UNSUPPORTED', 'HARNESS'):
                     V.append({'prop': 'H', 'cls': 'H_' + cc, 'detail': str(r.fatal), 'sig': 'H:' + cc, 'tag': tag})
+                elif cc.startswith('VALGRIND'):
+                    add('UNINITIALISED_USE' if 'uninit' in cc else 'MEMORY_ERROR', 'memcheck: %s %s' % (oc[2], desc), tag, site)
                 else:
                     add('MEMORY_ERROR' if cc.startswith(('ASAN', 'SIGNAL', 'DIED')) else cc, '%s %s' % (oc[2], desc), tag, site)
             else:
@@ -521,7 +533,7 @@ def judge(spec, results):
 
 
 def job_stats(spec, results):
-    st = {'outcomes': {}, 'faults_injected': {}, 'classes': {spec['cls']: 1}, 'modes': {spec['mode']: 1}, 'mutations': {}}
+    st = {'outcomes': {}, 'faults_injected': {}, 'classes': {spec['cls']: 1}, 'modes': {spec['mode']: 1}, 'mutations': {}, 'memcheck_runs': 1 if 'vg' in results else 0}
     for m in spec['muts']:
         st['mutations'][m] = 1
     for f in spec['faults']:
